@@ -519,6 +519,9 @@ class Engine:
             v = st.env.get(chain.id)
             if isinstance(v, VRec) and first_attr is not None and first_attr not in v.fields:
                 unmodelled.add(chain.id)
+            elif isinstance(v, VRec) and v.name == 'arr' and first_attr is None and isinstance(tgt, ast.Subscript) and isinstance(tgt.ctx, ast.Store):
+                # item assignment into an array changes its contents only: no modelled field (ndim, shape, dtype, flag, buffer identity) can change
+                unmodelled.add(chain.id)
             else:
                 modelled.add(chain.id)
         direct = {n.id for n in ast.walk(stmt) if isinstance(n, ast.Name) and isinstance(n.ctx, (ast.Store, ast.Del))}
